@@ -35,7 +35,7 @@ from specs import vhdl_ops as VO
 from specs import cohdl_semantics as sem
 from specs.vhdl_expr import VVal, TypeError_
 
-PROPS = ("C02",)
+PROPS = ("C02", "C06")  # C06: the emitted operator expressions are well typed under numeric_std / std_logic_1164
 P2 = sym.pow2
 BOp = VR.BinOp.Operator
 COp = VR.Compare.Operator
